@@ -9,7 +9,7 @@
 From Coq Require Import List NArith ZArith Bool Sorted Permutation.
 Import ListNotations.
 From SV Require Fmt.CmdSeq Fmt.CmdSeqProofs Fmt.ScenesImage Fmt.ScenesImageProofs Fmt.ScenesImageCfg Fmt.ScenesImageCfgProofs
-  Fmt.SmdTpl Fmt.SmdTplProofs Fmt.SmdWords Fmt.TextFields Fmt.TextFieldsProofs Fmt.SndStacks Fmt.SndStacksProofs Fmt.VmtQuote Fmt.VmtQuoteProofs Fmt.TextLines Fmt.TextLinesProofs Fmt.ChoreoBin Fmt.ChoreoBinProofs Fmt.SceneSummary Fmt.BspDedup Fmt.C20KeyTables Fmt.C20KeyTablesProofs KV.KvBase KV.KvLex KV.KvSym KV.KvLexProofs.
+  Fmt.SmdTpl Fmt.SmdTplProofs Fmt.SmdWords Fmt.TextFields Fmt.TextFieldsProofs Fmt.SndStacks Fmt.SndStacksProofs Fmt.VmtQuote Fmt.VmtQuoteProofs Fmt.TextLines Fmt.TextLinesProofs Fmt.ChoreoBin Fmt.ChoreoBinProofs Fmt.SceneSummary Fmt.BspDedup Fmt.C20KeyTables Fmt.C20KeyTablesProofs Fmt.SmdNumber Fmt.SmdNumberProofs KV.KvBase KV.KvLex KV.KvSym KV.KvLexProofs.
 
 (** * Command sequences *)
 Module CS := Fmt.CmdSeq.
@@ -485,3 +485,28 @@ Theorem c20_pool_key_casefold_refuted :
   DD.dedup_ok ("particles.Particle.export:name_to_elem", ["casefold"], ["name"], DD.KFields [("name", "casefold")]) = true /\
   DD.dedup_ok ("particles.Particle.export:name_to_elem", ["casefold"], ["name"], DD.KFields [("name", "strip+casefold")]) = false.
 Proof. exact KTP.pool_key_casefold_refuted. Qed.
+
+(** * SMD bone numbering (round 4): the [nodes] section of [Mesh.export] -- [dict.fromkeys] over the bones, passes that number a
+    bone once its parent is numbered, [ValueError] when a pass numbers nobody -- against the reader's line-by-line table
+    (numbers consecutive from 0, a parent number must be defined by an earlier line).  Model Fmt/SmdNumber.v, compared with the
+    implementation on every run. *)
+Module SN := Fmt.SmdNumber.
+Module SNP := Fmt.SmdNumberProofs.
+
+(** whenever the section is written, the reader accepts every line and returns, in file order, exactly the (name, parent name)
+    records of the bones of [todo]: each once, none invented, whatever the order of the dict (children first included) *)
+Theorem c20_smd_nodes_section_reads_back : forall bs ls, SN.number bs = Some ls ->
+  exists perm, Permutation perm (SN.dedupe bs) /\ SN.read_nodes [] ls = Some (map SN.bone_rec perm).
+Proof. exact SNP.number_reads_back. Qed.
+
+(** with pairwise distinct keys (names, as the comparison methods of Bone read them) no bone is dropped *)
+Theorem c20_smd_nodes_section_reads_back_distinct : forall bs ls, NoDup (map SN.bkey bs) -> SN.number bs = Some ls ->
+  exists perm, Permutation perm bs /\ SN.read_nodes [] ls = Some (map SN.bone_rec perm).
+Proof. exact SNP.number_reads_back_distinct. Qed.
+
+(** two bones under one key (what a case-folding comparison makes of "Weapon" / "weapon"): the second one is gone *)
+Theorem c20_smd_equal_keys_merge_refuted :
+  SN.number [SN.mkBone 0 None; SN.mkBone 1 (Some 0%N); SN.mkBone 1 (Some 0%N); SN.mkBone 3 (Some 1%N)] =
+  Some [(0%nat, 0%N, None); (1%nat, 1%N, Some 0%nat); (2%nat, 3%N, Some 1%nat)] /\
+  ~ NoDup (map SN.bkey [SN.mkBone 0 None; SN.mkBone 1 (Some 0%N); SN.mkBone 1 (Some 0%N); SN.mkBone 3 (Some 1%N)]).
+Proof. exact SNP.number_equal_keys_merge_refuted. Qed.
